@@ -11,15 +11,15 @@ ALL endings (normal, Exception, SystemExit, KeyboardInterrupt), all part lists:
 * `filters_restored` : `warnings.filters` (the same list object with the same contents),
   `showwarning`, `_showwarnmsg_impl` are what they were;
 * `syspath_restored` : `with PythonPathContext(dpath, index)` around a body that leaves `sys.path`
-  as it found it restores the list exactly, whatever the ending, for every index
-  `-(len+1) ≤ index ≤ len` (xdoctest uses -1 and 0); `syspath_restored_far_index` for larger
-  indices when `dpath` is not already listed;
-* partial, for bodies that do edit `sys.path`: `syspath_one_occurrence_removed` — whenever
-  `__exit__` does not raise, exactly one occurrence of `dpath` is gone and all other entries keep
-  their order; it raises `RuntimeError` only when `dpath` is absent, and `IndexError` never for a
-  stored index `≥ 0` (`exit_no_index_error`, the repaired behaviour of bc2ba1f);
-* witness `far_negative_index_leaks` (K-C12-a): an index below `-2·len(sys.path)-2` makes
-  `__exit__` raise `IndexError` and the temporary entry stays on `sys.path`.
+  as it found it restores the list exactly, whatever the ending, for every index `≤ len` — 0, -1 and
+  EVERY negative integer (clamped since b193b74); `syspath_restored_far_index` for larger indices
+  when `dpath` is not already listed; `syspath_restored_every_index`: for every integer index the
+  entries are the same afterwards (a permutation) and `__exit__` raises nothing but, possibly, its
+  own warning; `withPPC_no_index_error`;
+* partial, for bodies that do edit `sys.path`: `syspath_one_occurrence_removed` — exactly one
+  occurrence of `dpath` is gone and all other entries keep their order, also when the warning about
+  the mangled path is raised as an error (after the removal, c14b47c); `RuntimeError` only when
+  `dpath` is absent.
 -/
 namespace Xdoc.C12
 open Xdoc
@@ -129,9 +129,15 @@ theorem catch_warnings_restores (freshList logAppend showOrig : Obj) (body : Bod
 
 /-! ## sys.path -/
 
-theorem ppcExit_after_insert (dpath : String) (path : List String) (idx : Int)
+/-- the index stored by `__enter__` is never negative (b193b74) -/
+theorem ppcEnterIndex_nonneg (len : Nat) (index : Int) : 0 ≤ ppcEnterIndex len index := by
+  unfold ppcEnterIndex; split
+  · split <;> omega
+  · omega
+
+theorem ppcExit_after_insert (w : Bool) (dpath : String) (path : List String) (idx : Int)
     (h0 : 0 ≤ idx) (h1 : idx ≤ path.length) :
-    ppcExit dpath idx (pyInsert path idx dpath) = (path, .clean) := by
+    ppcExit w dpath idx (pyInsert path idx dpath) = (path, .clean) := by
   have hpos : pyInsertPos path.length idx = idx.toNat := by
     unfold pyInsertPos
     have : ¬ idx < 0 := by omega
@@ -162,35 +168,48 @@ theorem ppcExit_after_insert (dpath : String) (path : List String) (idx : Int)
 
 /-- ★ `syspath_restored`: if the body leaves `sys.path` as it found it, the exit restores the
     original list exactly and silently — for every ending of the body (the import succeeded, raised,
-    or was interrupted) and every index with `-(len+1) ≤ index ≤ len` -/
-theorem syspath_restored (dpath : String) (index : Int) (body : Body) (st : PState)
-    (hbody : ∀ s, (body s).1.sysPath = s.sysPath)
-    (hlo : -((st.sysPath.length : Int) + 1) ≤ index) (hhi : index ≤ st.sysPath.length) :
-    (withPPC dpath index body st).1.sysPath = st.sysPath ∧
-    (withPPC dpath index body st).2.2 = .clean ∧
-    (withPPC dpath index body st).2.1 = (body { st with sysPath := (ppcEnter dpath index st.sysPath).2 }).2 := by
-  have h0 : 0 ≤ ppcEnterIndex st.sysPath.length index := by unfold ppcEnterIndex; split <;> omega
+    or was interrupted), whether or not warnings are errors, and for EVERY index up to the length of
+    the list: 0, -1, and every negative integer however large (clamped by `__enter__`) -/
+theorem syspath_restored (dpath : String) (index : Int) (body : Body) (st : PState) (w : Bool)
+    (hbody : ∀ s, (body s).1.sysPath = s.sysPath) (hhi : index ≤ st.sysPath.length) :
+    (withPPC dpath index body st w).1.sysPath = st.sysPath ∧
+    (withPPC dpath index body st w).2.2 = .clean ∧
+    (withPPC dpath index body st w).2.1 = (body { st with sysPath := (ppcEnter dpath index st.sysPath).2 }).2 := by
+  have h0 := ppcEnterIndex_nonneg st.sysPath.length index
   have h1 : ppcEnterIndex st.sysPath.length index ≤ st.sysPath.length := by
-    unfold ppcEnterIndex; split <;> omega
-  have := ppcExit_after_insert dpath st.sysPath _ h0 h1
+    unfold ppcEnterIndex; split
+    · split <;> omega
+    · omega
+  have := ppcExit_after_insert w dpath st.sysPath _ h0 h1
   refine ⟨?_, ?_, ?_⟩ <;> simp [withPPC, ppcEnter, hbody, this, exitEnding]
 
-/-- ★ an index beyond the end (the entry is appended, found again by search): restored, with a
-    warning, when `dpath` was not already listed -/
-theorem syspath_restored_far_index (dpath : String) (index : Int) (body : Body) (st : PState)
-    (hbody : ∀ s, (body s).1.sysPath = s.sysPath)
-    (hhi : (st.sysPath.length : Int) < index) (hnew : dpath ∉ st.sysPath) :
-    (withPPC dpath index body st).1.sysPath = st.sysPath ∧
-    (withPPC dpath index body st).2.2 = .recovered := by
-  have hidx : ppcEnterIndex st.sysPath.length index = index := by unfold ppcEnterIndex; split <;> omega
-  have hpos : pyInsertPos st.sysPath.length index = st.sysPath.length := by
+theorem far_index_enter (dpath : String) (index : Int) (path : List String)
+    (hhi : (path.length : Int) < index) :
+    ppcEnter dpath index path = (index, path ++ [dpath]) := by
+  have hidx : ppcEnterIndex path.length index = index := by unfold ppcEnterIndex; split <;> omega
+  have hpos : pyInsertPos path.length index = path.length := by
     unfold pyInsertPos
     have : ¬ index < 0 := by omega
-    have : ¬ index.toNat ≤ st.sysPath.length := by omega
+    have : ¬ index.toNat ≤ path.length := by omega
     simp [*]
-  have hins : pyInsert st.sysPath index dpath = st.sysPath ++ [dpath] := by
-    unfold pyInsert; rw [hpos, List.insertIdx_length_self]
-  have hrec : ppcRecover dpath (st.sysPath ++ [dpath]) = (st.sysPath, .recovered) := by
+  simp [ppcEnter, hidx, pyInsert, hpos, List.insertIdx_length_self]
+
+theorem far_index_exit (w : Bool) (dpath : String) (index : Int) (path : List String)
+    (hhi : (path.length : Int) < index) :
+    ppcExit w dpath index (path ++ [dpath]) = ppcRecover w dpath (path ++ [dpath]) := by
+  unfold ppcExit
+  have : ((path ++ [dpath]).length : Int) ≤ index := by simp; omega
+  simp only [this, if_true]
+
+/-- ★ an index beyond the end (the entry is appended, found again by search): restored exactly when
+    `dpath` was not already listed — with a warning, or, when warnings are errors, with that warning
+    raised AFTER the entry was removed (c14b47c) -/
+theorem syspath_restored_far_index (dpath : String) (index : Int) (body : Body) (st : PState) (w : Bool)
+    (hbody : ∀ s, (body s).1.sysPath = s.sysPath)
+    (hhi : (st.sysPath.length : Int) < index) (hnew : dpath ∉ st.sysPath) :
+    (withPPC dpath index body st w).1.sysPath = st.sysPath ∧
+    (withPPC dpath index body st w).2.2 = (if w then .warnRaised else .recovered) := by
+  have hrec : ppcRecover w dpath (st.sysPath ++ [dpath]) = (st.sysPath, if w then .warnRaised else .recovered) := by
     unfold ppcRecover
     have : (st.sysPath ++ [dpath]).idxOf? dpath = some st.sysPath.length := by
       rw [List.idxOf?_eq_some_iff]
@@ -202,12 +221,53 @@ theorem syspath_restored_far_index (dpath : String) (index : Int) (body : Body) 
     simp only
     rw [List.eraseIdx_append_of_length_le (Nat.le_refl _)]
     simp
-  have hex : ppcExit dpath index (st.sysPath ++ [dpath]) = (st.sysPath, .recovered) := by
-    unfold ppcExit
-    have : ((st.sysPath ++ [dpath]).length : Int) ≤ index := by simp; omega
-    simp only [this, if_true]
-    exact hrec
-  refine ⟨?_, ?_⟩ <;> simp [withPPC, ppcEnter, hidx, hbody, hins, hex]
+  refine ⟨?_, ?_⟩ <;>
+    simp [withPPC, far_index_enter dpath index st.sysPath hhi, hbody, far_index_exit w dpath index st.sysPath hhi, hrec]
+
+/-- ★ `syspath_restored_every_index`: for EVERY integer index, every ending, with or without
+    warnings-as-errors, a body that leaves `sys.path` alone gets it back with exactly the entries it
+    had (a permutation; the very same list for every index up to the length, and for larger indices
+    whenever `dpath` was not already listed), and `__exit__` raises neither `RuntimeError` nor
+    `IndexError`. (For an index beyond the end with `dpath` already listed, the search finds the older
+    occurrence: the entries are the same, `dpath` ends up last — see the example below.) -/
+theorem syspath_restored_every_index (dpath : String) (index : Int) (body : Body) (st : PState) (w : Bool)
+    (hbody : ∀ s, (body s).1.sysPath = s.sysPath) :
+    (withPPC dpath index body st w).1.sysPath.Perm st.sysPath ∧
+    (withPPC dpath index body st w).2.2 ≠ .runtimeError ∧
+    (withPPC dpath index body st w).2.2 ≠ .indexError ∧
+    ((index ≤ st.sysPath.length ∨ dpath ∉ st.sysPath) → (withPPC dpath index body st w).1.sysPath = st.sysPath) := by
+  by_cases hhi : index ≤ st.sysPath.length
+  · obtain ⟨h1, h2, _⟩ := syspath_restored dpath index body st w hbody hhi
+    rw [h1, h2]
+    exact ⟨List.Perm.refl _, by simp, by simp, fun _ => rfl⟩
+  · have hhi' : (st.sysPath.length : Int) < index := by omega
+    have hmem : dpath ∈ st.sysPath ++ [dpath] := by simp
+    have hsome : ∃ k, (st.sysPath ++ [dpath]).idxOf? dpath = some k := by
+      cases h : (st.sysPath ++ [dpath]).idxOf? dpath with
+      | none => exact absurd hmem (List.idxOf?_eq_none_iff.mp h)
+      | some k => exact ⟨k, rfl⟩
+    obtain ⟨k, hk⟩ := hsome
+    have herase : (st.sysPath ++ [dpath]).eraseIdx k = (st.sysPath ++ [dpath]).erase dpath := by
+      rw [List.erase_eq_eraseIdx, hk]
+    have hperm : ((st.sysPath ++ [dpath]).erase dpath).Perm st.sysPath := by
+      have h1 : (st.sysPath ++ [dpath]).Perm (dpath :: (st.sysPath ++ [dpath]).erase dpath) :=
+        List.perm_cons_erase hmem
+      have h2 : (st.sysPath ++ [dpath]).Perm (dpath :: st.sysPath) := List.perm_append_singleton _ _
+      exact (List.Perm.cons_inv (h1.symm.trans h2))
+    have hrec : ppcRecover w dpath (st.sysPath ++ [dpath]) =
+        ((st.sysPath ++ [dpath]).erase dpath, if w then .warnRaised else .recovered) := by
+      simp [ppcRecover, hk, herase]
+    have hp : (withPPC dpath index body st w).1.sysPath = (st.sysPath ++ [dpath]).erase dpath := by
+      simp [withPPC, far_index_enter dpath index st.sysPath hhi', hbody, far_index_exit w dpath index st.sysPath hhi', hrec]
+    have hr : (withPPC dpath index body st w).2.2 = (if w then .warnRaised else .recovered) := by
+      simp [withPPC, far_index_enter dpath index st.sysPath hhi', hbody, far_index_exit w dpath index st.sysPath hhi', hrec]
+    refine ⟨hp ▸ hperm, ?_, ?_, ?_⟩
+    · rw [hr]; split <;> simp
+    · rw [hr]; split <;> simp
+    · intro h
+      rcases h with h | h
+      · exact absurd h hhi
+      · exact (syspath_restored_far_index dpath index body st w hbody hhi' h).1
 
 /-- removing the entry at a position that holds `d` removes one occurrence of `d` and keeps the
     order of everything else -/
@@ -228,9 +288,10 @@ theorem eraseIdx_one_occurrence (d : String) (l : List String) (k : Nat) (h : l[
       · rw [h1]
       · omega
 
-theorem ppcRecover_spec (d : String) (path : List String) :
-    let r := ppcRecover d path
-    (r.2 = .recovered ∧ r.1.filter (· ≠ d) = path.filter (· ≠ d) ∧ r.1.count d + 1 = path.count d) ∨
+theorem ppcRecover_spec (w : Bool) (d : String) (path : List String) :
+    let r := ppcRecover w d path
+    (r.2 = (if w then .warnRaised else .recovered) ∧ r.1.filter (· ≠ d) = path.filter (· ≠ d) ∧
+        r.1.count d + 1 = path.count d) ∨
     (r.2 = .runtimeError ∧ r.1 = path ∧ d ∉ path) := by
   simp only [ppcRecover]
   cases h : path.idxOf? d with
@@ -240,22 +301,28 @@ theorem ppcRecover_spec (d : String) (path : List String) :
     have := eraseIdx_one_occurrence d path k (by rw [List.getElem?_eq_getElem hk, hget])
     exact Or.inl ⟨rfl, this.1, this.2⟩
 
+/-- the endings of `__exit__` in which the temporary entry has been removed -/
+def Removed (r : ExitResult) : Prop := r = .clean ∨ r = .recovered ∨ r = .warnRaised
+
 /-- ◐ `syspath_one_occurrence_removed` (bodies that edit `sys.path`; every stored index, every
-    list): when `__exit__` does not raise, exactly one occurrence of `dpath` has been removed and
-    every other entry keeps its place in the order; `RuntimeError` only when `dpath` is absent
-    (nothing to remove); `IndexError` only for a negative stored index (nothing removed) -/
-theorem syspath_one_occurrence_removed (d : String) (idx : Int) (path : List String) :
-    let r := ppcExit d idx path
-    ((r.2 = .clean ∨ r.2 = .recovered) ∧
-        r.1.filter (· ≠ d) = path.filter (· ≠ d) ∧ r.1.count d + 1 = path.count d) ∨
+    list, with or without warnings-as-errors): unless `dpath` is absent, exactly one occurrence of
+    `dpath` has been removed and every other entry keeps its place in the order — ALSO when the
+    warning about the mangled path is raised as an error (it is raised after the removal, c14b47c);
+    `RuntimeError` only when `dpath` is absent (nothing to remove); `IndexError` only for a negative
+    stored index (which `__enter__` never stores) -/
+theorem syspath_one_occurrence_removed (w : Bool) (d : String) (idx : Int) (path : List String) :
+    let r := ppcExit w d idx path
+    (Removed r.2 ∧ r.1.filter (· ≠ d) = path.filter (· ≠ d) ∧ r.1.count d + 1 = path.count d) ∨
     (r.2 = .runtimeError ∧ r.1 = path ∧ d ∉ path) ∨
     (r.2 = .indexError ∧ r.1 = path ∧ idx < 0) := by
-  have hrec := ppcRecover_spec d path
+  have hrec := ppcRecover_spec w d path
   simp only at hrec
+  have hrem : Removed (if w then ExitResult.warnRaised else ExitResult.recovered) := by
+    cases w <;> simp [Removed]
   simp only [ppcExit]
   split
   · rcases hrec with ⟨a, b, c⟩ | ⟨a, b, c⟩
-    · exact Or.inl ⟨Or.inr a, b, c⟩
+    · exact Or.inl ⟨a ▸ hrem, b, c⟩
     · exact Or.inr (Or.inl ⟨a, b, c⟩)
   · split
     · rename_i hlen hpos
@@ -272,44 +339,44 @@ theorem syspath_one_occurrence_removed (d : String) (idx : Int) (path : List Str
         have := eraseIdx_one_occurrence d path k hget
         exact Or.inl ⟨Or.inl rfl, this.1, this.2⟩
       · rcases hrec with ⟨a, b, c⟩ | ⟨a, b, c⟩
-        · exact Or.inl ⟨Or.inr a, b, c⟩
+        · exact Or.inl ⟨a ▸ hrem, b, c⟩
         · exact Or.inr (Or.inl ⟨a, b, c⟩)
 
-/-- ★ the repaired behaviour (bc2ba1f): with a stored index `≥ 0` — every index xdoctest itself
-    passes — `__exit__` never raises `IndexError`, however the body changed `sys.path` -/
-theorem exit_no_index_error (d : String) (idx : Int) (path : List String) (h : 0 ≤ idx) :
-    (ppcExit d idx path).2 ≠ .indexError := by
-  have := syspath_one_occurrence_removed d idx path
+/-- ★ with a stored index `≥ 0` `__exit__` never raises `IndexError`, however the body changed
+    `sys.path` (bc2ba1f) … -/
+theorem exit_no_index_error (w : Bool) (d : String) (idx : Int) (path : List String) (h : 0 ≤ idx) :
+    (ppcExit w d idx path).2 ≠ .indexError := by
+  have := syspath_one_occurrence_removed w d idx path
   simp only at this
-  rcases this with ⟨h1 | h1, _⟩ | ⟨h1, _⟩ | ⟨_, _, h3⟩
-  · rw [h1]; simp
-  · rw [h1]; simp
+  rcases this with ⟨h1, _⟩ | ⟨h1, _⟩ | ⟨_, _, h3⟩
+  · rcases h1 with h1 | h1 | h1 <;> rw [h1] <;> simp
   · rw [h1]; simp
   · omega
 
-/-- ◐ the same for the whole `with` statement around an arbitrary body -/
-theorem withPPC_one_occurrence_removed (dpath : String) (index : Int) (body : Body) (st : PState) :
+/-- ★ … and `__enter__` stores such an index for EVERY integer it is given (b193b74): whatever the
+    index and whatever the body does to `sys.path`, the `with` statement never ends in `IndexError` -/
+theorem withPPC_no_index_error (dpath : String) (index : Int) (body : Body) (st : PState) (w : Bool) :
+    (withPPC dpath index body st w).2.2 ≠ .indexError := by
+  simp only [withPPC, ppcEnter]
+  exact exit_no_index_error w dpath _ _ (ppcEnterIndex_nonneg _ _)
+
+/-- ◐ the same for the whole `with` statement around an arbitrary body: the temporary entry (one
+    occurrence) is gone unless the body itself removed every occurrence -/
+theorem withPPC_one_occurrence_removed (dpath : String) (index : Int) (body : Body) (st : PState) (w : Bool) :
     let after := (body { st with sysPath := (ppcEnter dpath index st.sysPath).2 }).1.sysPath
-    let r := withPPC dpath index body st
-    ((r.2.2 = .clean ∨ r.2.2 = .recovered) →
-        r.1.sysPath.filter (· ≠ dpath) = after.filter (· ≠ dpath) ∧
-        r.1.sysPath.count dpath + 1 = after.count dpath) ∧
-    ((r.2.2 = .runtimeError ∨ r.2.2 = .indexError) → r.1.sysPath = after ∧ r.2.1 = .exception) := by
-  have := syspath_one_occurrence_removed dpath (ppcEnter dpath index st.sysPath).1
+    let r := withPPC dpath index body st w
+    (Removed r.2.2 ∧ r.1.sysPath.filter (· ≠ dpath) = after.filter (· ≠ dpath) ∧
+        r.1.sysPath.count dpath + 1 = after.count dpath) ∨
+    (r.2.2 = .runtimeError ∧ r.1.sysPath = after ∧ dpath ∉ after ∧ r.2.1 = .exception) := by
+  have := syspath_one_occurrence_removed w dpath (ppcEnter dpath index st.sysPath).1
     (body { st with sysPath := (ppcEnter dpath index st.sysPath).2 }).1.sysPath
+  have hni := withPPC_no_index_error dpath index body st w
   simp only at this
-  simp only [withPPC]
-  constructor
-  · intro hr
-    rcases this with ⟨_, b, c⟩ | ⟨a, _, _⟩ | ⟨a, _, _⟩
-    · exact ⟨b, c⟩
-    · rw [a] at hr; simp at hr
-    · rw [a] at hr; simp at hr
-  · intro hr
-    rcases this with ⟨a, _, _⟩ | ⟨a, b, _⟩ | ⟨a, b, _⟩
-    · rcases a with a | a <;> rw [a] at hr <;> simp at hr
-    · exact ⟨b, by rw [a]; rfl⟩
-    · exact ⟨b, by rw [a]; rfl⟩
+  simp only [withPPC] at hni ⊢
+  rcases this with ⟨a, b, c⟩ | ⟨a, b, c⟩ | ⟨a, _, _⟩
+  · exact Or.inl ⟨a, b, c⟩
+  · exact Or.inr ⟨a, b, c, by rw [a]; rfl⟩
+  · exact absurd a hni
 
 /-! ## non-vacuity and witnesses -/
 
@@ -329,26 +396,30 @@ example : (runBracket 10 11 12 13 (opsBody [] .normal) [{ nasty .normal with log
     = (st0, .exception) := by decide +kernel
 /-- instance of `syspath_restored` with index -1, the import failing -/
 example : (withPPC "d" (-1) (opsBody [] .exception) st0).1.sysPath = ["a", "b", "c"] :=
-  (syspath_restored "d" (-1) (opsBody [] .exception) st0 (fun _ => rfl) (by decide) (by decide)).1
+  (syspath_restored "d" (-1) (opsBody [] .exception) st0 false (fun _ => rfl) (by decide)).1
 example : (withPPC "d" (-1) (opsBody [] .normal) st0) = (st0, .normal, .clean) := by decide +kernel
+/-- the former K-C12-a input (index below `-2·len-2`): clamped to the front, removed silently -/
+example : (withPPC "d" (-9) (opsBody [] .normal) st0) = (st0, .normal, .clean) := by decide +kernel
+example : (withPPC "d" (-100) (opsBody [] .keyboardInterrupt) st0 true) = (st0, .keyboardInterrupt, .clean) := by
+  decide +kernel
 /-- the imported module inserts an entry in front: recovered by search, the entry of the module stays -/
 example : (withPPC "d" (-1) (opsBody [.pathInsert 0 "x"] .normal) st0).1.sysPath = ["x", "a", "b", "c"] ∧
     (withPPC "d" (-1) (opsBody [.pathInsert 0 "x"] .normal) st0).2.2 = .recovered := by decide +kernel
+/-- the same while warnings are errors (c14b47c): the warning propagates as an exception, the
+    temporary entry is gone all the same -/
+example : (withPPC "d" (-1) (opsBody [.pathInsert 0 "x"] .normal) st0 true) =
+    ({ st0 with sysPath := ["x", "a", "b", "c"] }, .exception, .warnRaised) := by decide +kernel
 /-- `dpath` already listed and the body shifts the list: the WRONG occurrence is removed (the
     multiset is right, the order of the other entries is kept, the position of `dpath` is not) -/
 example : (withPPC "a" (-1) (opsBody [.pathInsert 0 "x"] .normal) st0).1.sysPath = ["x", "b", "c", "a"] := by
   decide +kernel
+/-- index beyond the end AND `dpath` already listed, body untouched: same entries, `dpath` moved last
+    (why `syspath_restored_every_index` states a permutation for this corner) -/
+example : (withPPC "a" 10 (opsBody [] .normal) st0).1.sysPath = ["b", "c", "a"] := by decide +kernel
 /-- the body removed the entry itself: RuntimeError, nothing else changes -/
 example : (withPPC "d" 0 (opsBody [.pathRemove "d"] .normal) st0) = (st0, .exception, .runtimeError) := by
   decide +kernel
 /-- index beyond the end: appended, recovered by search (before bc2ba1f: IndexError and a leak) -/
 example : (withPPC "d" 10 (opsBody [] .normal) st0) = (st0, .normal, .recovered) := by decide +kernel
-
-/-- ☆ witness of K-C12-a: `PythonPathContext(dpath, index)` with `index < -2·len(sys.path) - 2`:
-    the stored index stays below `-len`, `sys.path[self.index]` raises `IndexError` in `__exit__`
-    and the temporary entry is left at the front of `sys.path` -/
-theorem far_negative_index_leaks :
-    (withPPC "d" (-9) (opsBody [] .normal) st0) =
-      ({ st0 with sysPath := ["d", "a", "b", "c"] }, .exception, .indexError) := by decide +kernel
 
 end Xdoc.C12
